@@ -3,11 +3,12 @@
 #  - mutants/reverts/<commit>.patch : the original defect re-introduced (reverse of each "fix:" commit)
 #  - mutants/*.patch                : hand-written breaks
 #  - seeded/<ID>-k/patch.diff       : breaks written by independent sub-agents
-# usage: tools/selftest.sh [reverts|mutants|seeded|all]
+# usage: tools/selftest.sh [reverts|mutants|seeded|all]      (tools/selftest_par.sh <what> <jobs> runs the same list <jobs> at a time)
 cd /verif
 WHAT="${1:-all}"
 fail=0
 run() { # patch, checks...
+  if [ -n "$SELFTEST_LIST" ]; then echo "$@"; return; fi
   P="$(realpath "$1")"; shift
   D=$(mktemp -d /tmp/hvself.XXXXXX)
   rsync -a --exclude .git --exclude '*.egg-info' --exclude __pycache__ /repo/ "$D/"
